@@ -394,6 +394,7 @@ def render_file(struct, flip):
     r = Render(flip)
     r.emit(0, "use std::fs;")
     r.emit(0, "use std::thread;")
+    r.emit(0, "use std::net::TcpStream;")
     ch = r.items(0, struct)
     root = r.node(None, None, ch)
     return "\n".join(r.lines) + "\n", root, r.pos, r.stats
